@@ -190,6 +190,7 @@ def run_job(job):
                         if os.path.isfile(q) and not os.path.islink(q):
                             src[os.path.relpath(q, os.path.dirname(ip.rstrip("/")))] = artefacts.sha_file(q)
         top = sorted(os.listdir(ws)) if os.path.isdir(ws) else []
+        probe_hits = artefacts.field_group_hits(ws, job["probe_fields"]) if job.get("probe_fields") and os.path.isdir(ws) else None
         keep = job.get("keep")
         if keep and os.path.isdir(ws):
             shutil.rmtree(keep, ignore_errors=True)
@@ -201,7 +202,7 @@ def run_job(job):
                         os.rename(s, os.path.join(keep, d))
                     except OSError:
                         shutil.move(s, os.path.join(keep, d))
-        return {"outcome": outcome, "snapshot": snap, "src": src, "top": top, "ws": ws, "pre": pre_log,
+        return {"outcome": outcome, "snapshot": snap, "src": src, "top": top, "ws": ws, "pre": pre_log, "probe_hits": probe_hits,
                 "hashseed": os.environ.get("PYTHONHASHSEED"), "lock_wait": round(lock_wait, 2),
                 "run_s": round(t_run, 2), "pid": os.getpid()}
     finally:
